@@ -51,6 +51,9 @@ def generate(rng, tier, index):
             "api": "backward", "tensors": outs, "inputs": inputs, "agg": gen_det_agg(rng, m, dtype, linear_only=True),
             "chunk": gen_chunk(rng, m), "retain": rng.random() < 0.5, "tensors_single": rng.random() < 0.5,
         }
+        from ..world import gen_forms
+
+        call["forms"] = gen_forms(rng)
         roles = None
     else:
         r = gen_mtl(rng, dtype, p_probe=0.05)
